@@ -32,32 +32,31 @@ func (r *C15Run) ev(format string, args ...any) {
 	r.trace = append(r.trace, fmt.Sprintf(format, args...)+"\n"...)
 }
 
-// c15Namespaces is the context of every generated payload. The prefix names overlap as strings ("t", "t1",
-// "t12") and map to different expansions, as the prefixes ns1, ns12 ... of a hub with many namespaces do.
-var c15Namespaces = map[string]any{"_": ExE, "t": ExE, "t12": ExE, "t1": ExS, "s": ExS}
+// c15Context is the context of a generated payload. The prefix names overlap as strings ("t", "t1", "t12")
+// and map to different expansions, as the prefixes ns1, ns12 ... of a hub with many namespaces do; one starts
+// with "http" without being a URL scheme; and consecutive payloads swap the meaning of the names, so that
+// nothing learnt from one payload's context may be applied to the next.
+func c15Context(seed int) (ns map[string]any, ePrefixes, sPrefixes []string) {
+	if seed%2 == 0 {
+		return map[string]any{"_": ExE, "t": ExE, "t12": ExE, "httpd": ExE, "t1": ExS, "s": ExS}, []string{"", "t:", "t12:", "httpd:"}, []string{"s:", "t1:"}
+	}
+	return map[string]any{"_": ExE, "s": ExE, "t1": ExE, "t": ExS, "t12": ExS, "httpd": ExS}, []string{"", "s:", "t1:"}, []string{"t:", "t12:", "httpd:"}
+}
 
 // styled serialises identifiers in several ways: default prefix, declared prefixes, absolute URI.
 func styled(seed int) func(string) string {
+	_, eP, sP := c15Context(seed)
 	return func(s string) string {
 		h := int(hashStr(s)%7) + seed
 		switch {
 		case strings.HasPrefix(s, MkE):
-			switch h % 4 {
-			case 0:
-				return s[len(MkE):] // no prefix: the context's default namespace "_"
-			case 1:
-				return "t:" + s[len(MkE):]
-			case 2:
-				return "t12:" + s[len(MkE):]
-			default:
-				return ExE + s[len(MkE):]
+			if k := h % (len(eP) + 1); k < len(eP) {
+				return eP[k] + s[len(MkE):] // "" = no prefix: the context's default namespace "_"
 			}
+			return ExE + s[len(MkE):]
 		case strings.HasPrefix(s, MkS):
-			switch h % 3 {
-			case 0:
-				return "s:" + s[len(MkS):]
-			case 1:
-				return "t1:" + s[len(MkS):]
+			if k := h % (len(sP) + 1); k < len(sP) {
+				return sP[k] + s[len(MkS):]
 			}
 			return ExS + s[len(MkS):]
 		}
@@ -66,7 +65,8 @@ func styled(seed int) func(string) string {
 }
 
 func styledBody(ents []Ent, seed int) []any {
-	all := []any{map[string]any{"id": "@context", "namespaces": c15Namespaces}}
+	ns, _, _ := c15Context(seed)
+	all := []any{map[string]any{"id": "@context", "namespaces": ns}}
 	for _, e := range ents {
 		all = append(all, mapEntity(e, styled(seed)))
 	}
@@ -75,7 +75,8 @@ func styledBody(ents []Ent, seed int) []any {
 
 // styledTxn is the body of POST /transactions: a context and one entity array per dataset.
 func styledTxn(parts []Part, seed int) map[string]any {
-	body := map[string]any{"@context": map[string]any{"namespaces": c15Namespaces}}
+	ns, _, _ := c15Context(seed)
+	body := map[string]any{"@context": map[string]any{"namespaces": ns}}
 	for _, p := range parts {
 		l := []any{}
 		for _, e := range p.Ents {
